@@ -230,6 +230,13 @@ def extra_programs():
                           {"name": "F2", "module": "main", "params": [], "body": [ka("/o/w", "W", "3"), ka("/o/a", "A", "5")]},
                           {"name": "root", "module": "main", "params": [], "body": [c("F1"), c("F2")]}],
                 "entries": {"eval_root": {"kind": "eval", "fn": "root"}}})
+    # a non-kept helper WITH a run-time argument that wraps an argument-less keep: that keep does not depend on the call order
+    out.append({"id": "G/arg_helper_wraps_plain_keep", "key": "arg_helper_wraps_plain_keep", "modules": ["main"], "vars": [], "eps": [],
+                "funcs": [f, {"name": "FS", "module": "main", "params": [], "body": []},
+                          {"name": "H", "module": "main", "params": [["x", None]], "body": [{"k": "keep", "path": "/w/s", "fn": "FS", "args": []}]},
+                          {"name": "root", "module": "main", "params": [], "body": [{"k": "keep", "path": "/w/a", "fn": "F", "args": []},
+                                                                                     {"k": "call", "fn": "H", "form": "plain", "args": [{"local": 0}]}]}],
+                "entries": {"eval_root": {"kind": "eval", "fn": "root"}}})
     # paths with characters that mean something in the dot language (a colon separates a node from a port)
     f2 = {"name": "F2", "module": "main", "params": [], "body": [{"k": "keep", "path": "/t/x:a", "fn": "F", "args": []}]}
     out.append({"id": "G/colon_paths", "key": "colon_paths", "modules": ["main"], "vars": [], "eps": [],
